@@ -103,7 +103,7 @@ EXTRA = {
     "C14": "The incubation factor is judged against the documented product Z beta exp(-G*/kT).",
     "C15": "Clause setter_history: one ShapeFactor object driven through 2-6 shape / aspect-ratio settings mixing constant and radius-dependent aspect ratios, compared after every setting with the description at the aspect ratio set last.",
     "C17": "With a shared table the same point is re-evaluated under another post-processing mode and read back through computeMobility (cached data must stay unprocessed).",
-    "C18": "Grain-growth runs also start from data-loaded distributions and after an earlier run followed by reset(); volume is judged against the volume the run starts from.",
+    "C18": "Grain-growth runs also start from data-loaded distributions and after an earlier run followed by reset(); volume is judged against the volume the run starts from; the mean grain size (cbrt(volume/number), volume renormalised every step) is judged by the number of grains before renormalisation never rising and the mean not falling by more than that step's renormalisation explains; the growth law is compared with the documented volume-conserving formula.",
     "C20": "Clause surrogate_multi: MulticomponentSurrogate over an analytic ternary backend (driving force, diffusivity, curvature factors; growth and impingement derived from them); both surrogate clauses train on broadcast grids and point-wise lists, the binary one also on temperature x Gibbs-Thomson grids.",
 }
 for _p, _c in (("C09", "hashtable"), ("C14", "cnt and cache"), ("C15", "setter_history and rcrit"), ("C17", "bounds"), ("C18", "strength")):
